@@ -15,7 +15,7 @@ PY = "/venv/bin/python"
 # property -> (technique, decided clauses, undecided clauses)
 CLAIMS = {
     "C01": (
-        "kind-lattice abstract interpretation at match-construction sites; loop-nesting, pre-order and guard-dominance rules; regex-AST rule on string tokens; abstract execution (partial evaluator + model objects) of the six selector classes on covering small documents; lexer decisions on the reconstructed master pattern",
+        "kind-lattice abstract interpretation at match-construction sites; loop-nesting, pre-order and guard-dominance rules; regex-AST rule on string tokens; abstract execution (partial evaluator + model objects) of the six selector classes on covering small documents; lexer decisions on the reconstructed master pattern; abstract execution of Parser.parse_selector_list on the lexer model's tokens of covering bracketed selections",
         "wrong-kind values select nothing; list concatenation per input node; descendant pre-order; document member order; zero step; quoted-string token shape",
         "index/slice arithmetic, full nodelist equality, blank-space tolerance",
     ),
@@ -25,22 +25,22 @@ CLAIMS = {
         "truth of arbitrary expressions on arbitrary documents, regex dialect",
     ),
     "C03": (
-        "def-use rule on location steps at match-construction sites; inverse-table check of escape/unescape chains; regex-AST token shape; default-parameter rule on the pointer parser; abstract execution of the selectors on covering small documents (values and location parts); folded character tables",
+        "def-use rule on location steps at match-construction sites; inverse-table check of escape/unescape chains; regex-AST token shape; default-parameter rule on the pointer parser; abstract execution of the selectors on covering small documents (values and location parts); folded character tables; abstract execution of canonical_string -> lexer model -> decoder / parser on covering member names (round trip and RFC spelling)",
         "location-step agreement, canonical escape, inverse escape tables, token shape, pointer built from parts, pointer text parses back under the parser's defaults (2 known findings)",
         "normalised index arithmetic, object identity of re-evaluated nodes",
     ),
     "C04": (
-        "ordered-replace-chain rule, guard-dominance (must) analysis for int() recognisers, kind analysis of _getitem, handler-class rule for exists, codec-domain rule",
+        "ordered-replace-chain rule, guard-dominance (must) analysis for int() recognisers, kind analysis of _getitem, handler-class rule for exists, codec-domain rule; who-may-store rule (no memo in a class- or module-level container keyed without every argument read)",
         "decode/encode order, canonical index recogniser, scalar targets rejected, exists = success of resolve, decoder domain",
         "reachability of every node of every document",
     ),
     "C05": (
-        "sibling agreement and must-pass-through analysis on Op.apply bodies; kind/type discipline for member keys; taint rule for deep copy; handler-order rule",
+        "sibling agreement and must-pass-through analysis on Op.apply bodies; kind/type discipline for member keys; taint rule for deep copy; handler-order rule; taint rule for every patch value that reaches the document",
         "insertion discipline incl. length consulted, member keys are strings, deep test equality, deep copy on copy, own-child check first, handler order",
         "resulting-document equality over operation sequences",
     ),
     "C06": (
-        "exception-escape (effect) analysis over the resolved call graph with a closed table of partial built-in operations; loop-progress rule for termination",
+        "exception-escape (effect) analysis over the resolved call graph with a closed table of partial built-in operations; loop-progress rule for termination; regex-AST ambiguity rule (no unbounded repetition over overlapping alternatives) on the library's own patterns",
         "escape sets of all documented entry points, handler soundness, parser loop progress, exception rendering",
         "third-party termination (re, json), hostile container types, recursion depth",
     ),
@@ -55,17 +55,17 @@ CLAIMS = {
         "scheduling effects of third-party awaitables",
     ),
     "C09": (
-        "write-effect analysis over the call graph reachable from evaluation entry points; volatility/children coverage rules; who-may-construct rule for cache cells",
+        "write-effect analysis over the call graph reachable from evaluation entry points; volatility/children coverage rules; who-may-construct rule for cache cells; who-may-store rule over the engine's modules (no class- or module-level container written at run time)",
         "no writes to compiled query/document/context during evaluation, volatility flags, fresh cache per resolution, immutable compiled objects, stateless lexer/parser",
         "(result equality under interleavings follows from the absence of shared writes)",
     ),
     "C10": (
-        "def-use field-coverage rule (evaluation reads subset of __str__ reads), constant-folded precedence and flag tables, keyword round trip through the reconstructed lexer grammar; grouping round trip: abstract execution of the printers on all expression trees of depth 3 read back by a reference Pratt parser with the folded precedence table",
+        "def-use field-coverage rule (evaluation reads subset of __str__ reads), constant-folded precedence and flag tables, keyword round trip through the reconstructed lexer grammar; grouping round trip: abstract execution of the printers on all expression trees of depth 3 read back by a reference Pratt parser with the folded precedence table; abstract execution of FloatLiteral.__str__ on sample floats against the lexer model; writer/reader round trip of quoted text on covering samples",
         "field coverage of string forms, precedence agreement parser/printer, regex flag tables inverse, keyword round trip, escape tables",
         "float/huge-number literal text, whole-query equivalence on all documents",
     ),
     "C11": (
-        "delegation-shape and argument-forwarding rules; symbolic sequence algebra over the four compound implementations (sibling agreement); partial evaluation of match(); single-loader rule",
+        "delegation-shape and argument-forwarding rules; symbolic sequence algebra over the four compound implementations (sibling agreement); partial evaluation of match(); single-loader rule; abstract execution of load_data on covering JSON texts and a model file",
         "environment delegation, findall/match/query as projections of finditer, compound plan agreement, one loader",
         "json decoding itself",
     ),
@@ -75,22 +75,22 @@ CLAIMS = {
         "the list-slicing law over operation histories (itertools/deque semantics)",
     ),
     "C13": (
-        "operator-table exhaustiveness against compare's dispatch, reconstructed-lexer alias tables against parser dispatch maps, AST normal forms of mirror operators, forwarding rule for the filter context; abstract execution of CurrentKey and of the lexer's master pattern on alias spellings",
+        "operator-table exhaustiveness against compare's dispatch, reconstructed-lexer alias tables against parser dispatch maps, AST normal forms of mirror operators, forwarding rule for the filter context; abstract execution of CurrentKey and of the lexer's master pattern on alias spellings; abstract execution of the bracket parser on bare and quoted spellings of covering names",
         "operator exhaustiveness, alias tables, contains mirrors in, =~ full match with flags, keys selector, fake root, filter-context propagation, root-less/bare names",
         "evaluation results of extension queries on arbitrary documents",
     ),
     "C14": (
-        "ordered-replace-chain rule, canonical-index rule (shared with C04), producer classification of pointer parts vs comparison representation, navigation-shape rules",
+        "ordered-replace-chain rule, canonical-index rule (shared with C04), producer classification of pointer parts vs comparison representation, navigation-shape rules; abstract execution of JSONPointer.__truediv__ on covering parts (escapes, several tokens, absolute parts)",
         "inverse parse/print tables, canonical index, representation-independent equality/hash/relativity, join/parent/slash shape",
         "the resolution law of joins",
     ),
     "C15": (
-        "dispatch-table agreement (loader branch / builder / Op.name / labels), writer-reader key sets, taint rule (stored value never aliased into the document), sibling diff of add variants; abstract execution of the patch loader per operation name and of its member lookup",
+        "dispatch-table agreement (loader branch / builder / Op.name / labels), writer-reader key sets, taint rule (stored value never aliased into the document), sibling diff of add variants; abstract execution of the patch loader per operation name and of its member lookup; must-pass-through rule for the builders' append",
         "dispatch agreement, builder-class-name agreement, asdict keys = loader keys, no aliasing of stored values, variant deltas",
         "equality of effects of the three constructions on all documents",
     ),
     "C16": (
-        "regex-AST rule on the relative-pointer grammar, guard-dominance for parts[-1], taint rule decode-once, print coverage; abstract execution of the index recogniser on a covering token set; who-may-call rule for the second entry point",
+        "regex-AST rule on the relative-pointer grammar, guard-dominance for parts[-1], taint rule decode-once, print coverage; abstract execution of the index recogniser on a covering token set; who-may-call rule for the second entry point; abstract execution of the relative-pointer constructors, __str__ and JSONPointer.to on covering (base, relative pointer) pairs",
         "grammar admits multi-digit offset, empty-parts guard, decode once, every parsed part printed",
         "arithmetic of steps and offsets",
     ),
@@ -100,7 +100,7 @@ CLAIMS = {
         "conflicts between an arbitrary spelling and the fixed rules",
     ),
     "C18": (
-        "argparse dest derivation vs handler attribute reads, polarity rule, escape analysis of library calls vs caught classes, output def-use",
+        "argparse dest derivation vs handler attribute reads, polarity rule, escape analysis of library calls vs caught classes, output def-use; file-mode vs use rule for file options; options inherited through parents=",
         "option names, usage and polarity, error coverage with exit status and stderr, output is the library result",
         "argparse/file-system behaviour, byte-exact output",
     ),
@@ -186,10 +186,10 @@ def main() -> None:
         "notes": (
             "Technique family: static analysis only. No check imports or runs repository code. "
             "Exit 0 pass, 1 VIOLATION, 2 ANALYSIS-ERROR (fail closed). Genuine defects of the "
-            "pinned tree are repaired by fix: commits in /repo (54) or listed in known_findings.json "
+            "pinned tree are repaired by fix: commits in /repo (56) or listed in known_findings.json "
             "(6 open: C01 1, C03 2, C06 1, C15 2 - the check prints KNOWN-FINDING for them and exits 0). "
-            "tools/regress.py runs the three corpora kept here: the clean tree, 200 seeded breaking changes "
-            "(seeded/), 280 behaviour-preserving refactorings (refactorings/)."
+            "tools/regress.py runs the three corpora kept here: the clean tree, 259 seeded breaking changes "
+            "(seeded/), 340 behaviour-preserving refactorings (refactorings/)."
         ),
     }
     (HERE / "MANIFEST.json").write_text(json.dumps(manifest, indent=1) + "\n")
